@@ -140,6 +140,9 @@ impl<'a> UnresolvedAddress<'a> {
                     Ok(ipv6::Address::from_octets(bytes))
                 }
                 (index, AddressMode::InLine16bits(inline)) => {
+                    // RFC 6282 §3.1.1: IID bits not covered by the context are taken
+                    // from the 16-bit to IID mapping 0000:00ff:fe00:XXXX.
+                    bytes[11..13].copy_from_slice(&EUI64_MIDDLE_VALUE[..]);
                     copy_context(index, &mut bytes[..])?;
                     bytes[16 - inline.len()..].copy_from_slice(inline);
                     Ok(ipv6::Address::from_octets(bytes))
